@@ -380,6 +380,7 @@ _SQ_OLD = ('    for i, c in enumerate(iterbytes(s)):\n        if c == qu:\n     
 _SQ_FIXED = ('    escaped = False\n    for i, c in enumerate(iterbytes(s)):\n        if escaped:\n            word.append(c)\n            escaped = False\n'
              '        elif inQuote and c == esc:\n            escaped = True\n        elif c == qu:\n            if not inQuote:\n')
 MUTANTS = [
+    Mutant('nil-atom-object-mislabelled', IMAP, '            pieces.extend([b" ", b"NIL"])\n', '            pieces.extend([b" ", _NIL_ATOM.label.encode("ascii")])\n', more=[(IMAP, 'def collapseNestedLists(items):\n', 'class _Atom:\n    def __init__(self, label):\n        self.label = label\n\n\n_NIL_ATOM = _Atom("nil")\n\n\ndef collapseNestedLists(items):\n')], expect_rule='writer/item-forms'),
     Mutant("quote-escapes-in-wrong-order", IMAP, "    return qu + s.replace(esc, esc + esc).replace(qu, esc + qu) + qu\n",
            "    return qu + s.replace(qu, esc + qu).replace(esc, esc + esc) + qu\n", expect_rule="quote/writer-semantics"),
     Mutant("quote-forgets-escape-unit", IMAP, "    return qu + s.replace(esc, esc + esc).replace(qu, esc + qu) + qu\n", "    return qu + s.replace(qu, esc + qu) + qu\n",
@@ -407,6 +408,7 @@ MUTANTS = [
            expect_rule="reader/literal-bypasses-tokenizer"),
 ]
 SILENT = [
+    Silent('nil-atom-from-a-private-object', IMAP, '            pieces.extend([b" ", b"NIL"])\n', '            pieces.extend([b" ", _NIL_ATOM.label.encode("ascii")])\n', more=[(IMAP, 'def collapseNestedLists(items):\n', 'class _Atom:\n    def __init__(self, label):\n        self.label = label\n\n\n_NIL_ATOM = _Atom("NIL")\n\n\ndef collapseNestedLists(items):\n')]),
     Silent("quote-as-loop", IMAP, "    return qu + s.replace(esc, esc + esc).replace(qu, esc + qu) + qu\n",
            "    for ch in (esc, qu):\n        s = s.replace(ch, esc + ch)\n    return qu + s + qu\n"),
     Silent("literal-through-helper", IMAP, '                pieces.extend([b" ", b"{%d}" % (len(i),), IMAP4Server.delimiter, i])\n', '                pieces.extend([b" ", _literal(i)])\n'),
